@@ -68,6 +68,13 @@ Proof.
   rewrite (eq_omd_correct s _ (proj1 Hs) (proj1 H1)), H2. split; [exact Hs | reflexivity].
 Qed.
 
+Lemma copycyc_refines c dst : refines_op (CopyCyc c dst).
+Proof.
+  start. simpl.
+  destruct (from_pairs_ok (map (fun p => (fst p, remap_ref match c with CkDeepCopy | CkPickle => true | _ => false end dst (snd p))) (m_items o))) as [H1 H2].
+  split; [exact H1|]. rewrite H2. reflexivity.
+Qed.
+
 Lemma copyother_refines c : refines_op (CopyOther c).
 Proof.
   start. simpl. destruct (from_pairs_ok (m_items o)) as [H1 H2].
